@@ -85,7 +85,7 @@ func progOpts() gen.ProgOpts {
 // two more process lifetimes.
 func genBufEdge(t *rapid.T) drive.CrashCase {
 	p := drive.Program{}
-	for _, k := range gen.Keys(t, 3, 10) {
+	for _, k := range gen.KeysWide(t, 3, 10) {
 		if len(k) <= 4096 { // the byte arithmetic below assumes unfragmented records
 			p.Keys = append(p.Keys, k)
 		}
